@@ -32,7 +32,7 @@ import BpProofs.SpecLink
       kinds (scalars singular / optional / oneof / repeated / packed, nested messages to any
       depth, maps, wrappers, Timestamp / Duration);
     * `dump_sound` is in `BpProofs/Props/C02Dump.lean` (it needs the C01 files, which cannot be
-      imported together with the C02 helper files: both define `Bp.foldFields_append`).
+      imported together with the C02 helper files: both define `Bp.foldFields_append_s`).
 -/
 namespace Bp.C02
 open Bp Gen
@@ -146,13 +146,13 @@ theorem load_pack_mix (S : Schema) (rec : Loader) (d : MsgD) (idx : Nat) (f : Fi
     (hall : ∀ pf ∈ run, Targets d pf idx f) (hall' : ∀ pf ∈ run', Targets d pf idx f)
     (es : List Val) (he : elemsOfRecs S rec f run = .ok es) (he' : elemsOfRecs S rec f run' = .ok es) :
     foldFields S rec d st (before ++ run ++ after) = foldFields S rec d st (before ++ run' ++ after) := by
-  rw [List.append_assoc, List.append_assoc, foldFields_append, foldFields_append S rec d before]
+  rw [List.append_assoc, List.append_assoc, foldFields_append_s, foldFields_append_s S rec d before]
   cases hb : foldFields S rec d st before with
   | error e => rfl
   | ok s1 =>
     simp only [bind_ok]
     have hw1 := foldFields_wf S rec d before st s1 hw hb
-    rw [foldFields_append, foldFields_append S rec d run',
+    rw [foldFields_append_s, foldFields_append_s S rec d run',
       foldFields_repeated S rec d idx f hr run hne hall s1 hw1 es he,
       foldFields_repeated S rec d idx f hr run' hne' hall' s1 hw1 es he']
 
@@ -262,7 +262,7 @@ theorem load_last_wins (S : Schema) (rec : Loader) (d : MsgD) (st st' : MState) 
     (ht : Targets d pf idx f) (hrep : f.repeated = false) (hm : f.ty ≠ .map) (hmsg : f.ty ≠ .message)
     (hv : decodeValue S rec f pf = .ok v)
     (h : foldFields S rec d st (earlier ++ [pf]) = .ok st') : st'.slots.getD idx .ph = v := by
-  rw [foldFields_append] at h
+  rw [foldFields_append_s] at h
   cases hb : foldFields S rec d st earlier with
   | error e => rw [hb] at h; simp at h
   | ok s1 =>
@@ -288,7 +288,7 @@ theorem load_last_wins_oneof (S : Schema) (rec : Loader) (d : MsgD) (st st' : MS
     st'.cur.getD g Option.none = some idx
     ∧ ∀ j fj, d.fields[j]? = some fj → fj.group = some g → j ≠ idx → SentinelAt fj (st'.slots.getD j .ph) := by
   have hinv' := foldFields_inv S rec d d.nGroups _ st st' hwg hinv h
-  rw [foldFields_append] at h
+  rw [foldFields_append_s] at h
   cases hb : foldFields S rec d st earlier with
   | error e => rw [hb] at h; simp at h
   | ok s1 =>
